@@ -305,7 +305,7 @@ func c01Perturb(input string) func() {
 		switch z & 7 {
 		case 0, 1:
 			runtime.Gosched()
-		case 2:
+		case 2, 3:
 			time.Sleep(time.Duration(1+(z>>8)%40) * time.Microsecond)
 		}
 	}
